@@ -22,6 +22,9 @@ WITNESS = {
     "sendsched": {"target": "src/sender/sendersession.rs", "src": "units/sendsched/witness.rs"},
     "filedesc": {"target": "src/sender/filedesc.rs", "src": "units/filedesc/witness.rs"},
     "confine": {"target": "src/receiver/writer/objectwriterfs.rs", "src": "units/confine/witness.rs"},
+    "fecenc": {"target": "src/fec/raptor.rs", "src": "units/fecenc/witness.rs", "always": True},
+    "fdtoti": {"target": "src/common/fdtinstance.rs", "src": "units/fdtoti/witness.rs"},
+    "cachectl": {"target": "src/sender/objectdesc.rs", "src": "units/cachectl/witness.rs"},
 }
 WITNESS = {k: v for k, v in WITNESS.items() if os.path.exists(os.path.join(VERIF, v["src"]))}
 
